@@ -89,6 +89,24 @@ impl std::str::FromStr for F64Bits {
     fn from_str(s: &str) -> Result<Self, Self::Err> { s.parse().map(F64Bits) }
 }
 
+/// The item type an iterator-driven op feeds the crate with (`<name>:<via>` in the case file; the model ignores it:
+/// every one of these `Extend` / `FromIterator` impls is `push_str` / `push` per item).
+#[derive(Clone, Copy, Debug, PartialEq, Eq)]
+pub enum Via {
+    /// `&str` / `char` (the default)
+    Plain,
+    /// `String`
+    String,
+    /// `Box<str>`
+    Boxed,
+    /// `Cow<str>` (alternating Borrowed / Owned)
+    Cow,
+    /// `LeanString` (built from leaked static text: no allocation of its own)
+    Lean,
+    /// `&char`
+    Ref,
+}
+
 #[derive(Clone, Debug)]
 pub enum Op {
     // constructor-like
@@ -100,8 +118,8 @@ pub enum Op {
     FromBool { b: bool },
     FromInt { v: Int },
     Clone { route: CloneRoute, i: usize },
-    CollectChars { hint: usize, panic_at: i64, chars: Vec<char> },
-    CollectStrs { panic_at: i64, pieces: Vec<String> },
+    CollectChars { via: Via, hint: usize, panic_at: i64, chars: Vec<char> },
+    CollectStrs { via: Via, panic_at: i64, pieces: Vec<String> },
     Display { err_at: i64, panic_at: i64, pieces: Vec<String> },
     // in-place
     CloneFrom { i: usize, j: usize },
@@ -118,8 +136,8 @@ pub enum Op {
     Reserve { i: usize, n: usize },
     ShrinkTo { i: usize, n: usize },
     ShrinkToFit { i: usize },
-    ExtendChars { i: usize, hint: usize, panic_at: i64, chars: Vec<char> },
-    ExtendStrs { i: usize, panic_at: i64, pieces: Vec<String> },
+    ExtendChars { via: Via, i: usize, hint: usize, panic_at: i64, chars: Vec<char> },
+    ExtendStrs { via: Via, i: usize, panic_at: i64, pieces: Vec<String> },
     WriteFmt { i: usize, err_at: i64, panic_at: i64, pieces: Vec<String> },
 }
 
@@ -333,6 +351,21 @@ fn parse_int(ty: &str, dec: &str, line: usize) -> Result<Int, String> {
 
 fn parse_op(name: &str, a: &mut Args<'_>) -> Result<Op, String> {
     let line = a.line;
+    let (name, via) = match name.split_once(':') {
+        None => (name, Via::Plain),
+        Some((n, v)) => (
+            n,
+            match v {
+                "str" | "char" => Via::Plain,
+                "string" => Via::String,
+                "box" => Via::Boxed,
+                "cow" => Via::Cow,
+                "lean" => Via::Lean,
+                "ref" => Via::Ref,
+                v => return Err(format!("line {line}: unknown item type `{v}`")),
+            },
+        ),
+    };
     let op = match name {
         "new" => Op::New,
         "from_str" => {
@@ -381,11 +414,12 @@ fn parse_op(name: &str, a: &mut Args<'_>) -> Result<Op, String> {
             Op::Clone { route, i: a.usize("i")? }
         }
         "collect_chars" => Op::CollectChars {
+            via,
             hint: a.usize("hint")?,
             panic_at: a.i64("panic_at")?,
             chars: a.rest_chars()?,
         },
-        "collect_strs" => Op::CollectStrs { panic_at: a.i64("panic_at")?, pieces: a.rest_texts()? },
+        "collect_strs" => Op::CollectStrs { via, panic_at: a.i64("panic_at")?, pieces: a.rest_texts()? },
         "display" => Op::Display {
             err_at: a.i64("err_at")?,
             panic_at: a.i64("panic_at")?,
@@ -434,13 +468,14 @@ fn parse_op(name: &str, a: &mut Args<'_>) -> Result<Op, String> {
         "shrink_to" => Op::ShrinkTo { i: a.usize("i")?, n: a.usize("n")? },
         "shrink_to_fit" => Op::ShrinkToFit { i: a.usize("i")? },
         "extend_chars" => Op::ExtendChars {
+            via,
             i: a.usize("i")?,
             hint: a.usize("hint")?,
             panic_at: a.i64("panic_at")?,
             chars: a.rest_chars()?,
         },
         "extend_strs" => {
-            Op::ExtendStrs { i: a.usize("i")?, panic_at: a.i64("panic_at")?, pieces: a.rest_texts()? }
+            Op::ExtendStrs { via, i: a.usize("i")?, panic_at: a.i64("panic_at")?, pieces: a.rest_texts()? }
         }
         "write_fmt" => Op::WriteFmt {
             i: a.usize("i")?,
